@@ -193,10 +193,18 @@ def varHeaderWith (chain : List Modifier → List Char → Checked (List Char)) 
         | .ok _ => varHeaderWith chain r ms
         | .panic _ => .panic
 
-/-- `AssertResponse.Process` (http). The body is only read when body patterns are configured, so a `size`
-assertion without patterns compares against 0 (as in the code). -/
+/-- is the response body read into `b`? The condition of the `if` around `io.ReadAll(body)` as a function of its
+three atoms: body patterns OR a `size` block configured, and a body reader present (repair e0ff541; before it the
+size assertion without patterns compared against `len(nil) = 0`). Tied to the source by `Bridge.C19.httpBodyReadCond_eq`. -/
+def bodyReadCond (hasPatterns hasSize bodyPresent : Bool) : Bool := (hasPatterns || hasSize) && bodyPresent
+
+/-- … for a configuration; the guns always hand a reader over (`respBody` of `shootStep` is never nil) -/
+def AssertCfg.readsBody (a : AssertCfg) : Bool := bodyReadCond (!a.body.isEmpty) a.size.isSome true
+
+/-- `AssertResponse.Process` (http). The body is read when body patterns or a `size` block are configured: the size
+assertion is evaluated on the real body length (otherwise `b` stays nil and nothing looks at it). -/
 def assertHttp (a : AssertCfg) (r : Resp) : PostRes :=
-  let len := if a.body = [] then 0 else r.bodyLen
+  let len := if a.readsBody then r.bodyLen else 0
   if !(a.body.all r.bodyHas) then .err
   else if !(a.headers.all fun (k, v) => isInfix v (r.header k)) then .err
   else if a.statusCode ≠ 0 ∧ a.statusCode ≠ r.status then .err
